@@ -58,7 +58,7 @@ CLAIMS = {
         text="Exact for coherence/guard clauses, lint for recency: no iterator invalidation (lazy __iter__ over a list "
              "that __getitem__ relinks while inherited views iterate-and-look-up, read off the parsed _collections_abc "
              "source), dict/list coherence on every path of the mutators, capacity guard by ordering abstraction, victim "
-             "end opposite the use end, value stored on every path.",
+             "end opposite the use end, value stored on every path. Also: look-ups take the node from the dict on every path; derived state (any field besides dict/list that is written outside the constructor and read) is refreshed on every mutating path of every public operation.",
         level_note=STATIC_BASE + "recency order over whole histories follows only together with the list's own "
                    "correctness (C08); not re-proved here.",
         technique="static analysis: effect summaries over the call graph, path effect counting, ordering abstraction"),
@@ -66,7 +66,7 @@ CLAIMS = {
         design_ref="DESIGN.md §6 C07",
         text="Value stored on every path of __setitem__ (sibling cross-check against LRUCache), no iterator invalidation, "
              "dict/list coherence and capacity guard, count discipline (every use path increments exactly once, insertion "
-             "sets count 1 at the victim end), shape of the increment helper (strict < scan, identity test).",
+             "sets count 1 at the victim end), shape of the increment helper (strict < scan, identity test). Also: look-ups take the node from the dict on every path; derived state is refreshed on every mutating path of every public operation.",
         level_note=STATIC_BASE + "global count-sortedness over arbitrary histories is value-level induction and not decided.",
         technique="static analysis: value-flow on all paths, effect summaries, path effect counting"),
     "C08": dict(
@@ -74,7 +74,7 @@ CLAIMS = {
         text="Size follows links (node lifecycle typestate: attach/detach effects balance the size counter on every path "
              "of every mutator), identity-not-equality on nodes while the node class has a generated value __eq__, "
              "empty-list guards of pop_back/pop_front, and a shape analysis of the pointer surgery of the mutators over a "
-             "finite abstract list domain.",
+             "finite abstract list domain. Also: one-shot inputs traversed once; node provenance (no node reached from another parameter is linked in).",
         level_note=STATIC_BASE + "see DESIGN.md for which link-consistency clauses the shape domain decides.",
         technique="static analysis: typestate/effect counting, type-based comparison lint, shape abstraction"),
     "C09": dict(
@@ -84,7 +84,7 @@ CLAIMS = {
              "fixed-position accesses of the storage in every method are guarded (KeyError, not IndexError, on empty), "
              "unorderable probe reports absent "
              "(TypeError at the bisect site cannot escape the probing entry points), parallel arrays keys/values mutated "
-             "together at the same index, index provenance from insertions_index of the same key, key validation.",
+             "together at the same index, index provenance from insertions_index of the same key, key validation. Also: one-shot inputs traversed once, derived state refreshed on every mutating path, the arrays are owned (never another object's field or a parameter), and arg_sort compares the keys themselves.",
         level_note=STATIC_BASE + "bisect_left on a sorted list is trusted (delegation), so sortedness itself is a "
                    "delegation argument.",
         technique="static analysis: may-be-empty and taint value-flow, exception-escape analysis, parallel-array coherence"),
@@ -94,7 +94,7 @@ CLAIMS = {
              "operands and compared with their definitions; operator filters are compared by truth table over the "
              "membership atoms; comparison operators are expanded through resolved operator calls to formulas over "
              "A⊆B, B⊆A; argument roles at the three eq_relation call sites; existential-scan shape of __contains__ and "
-             "keep-iff-no-match shape of the constructor; parallel arrays starts/ends.",
+             "keep-iff-no-match shape of the constructor; parallel arrays starts/ends. Also: one-shot inputs traversed once, derived state refreshed, and the constructor's scan sees the caller's order (no set()/sorted() on the way).",
         level_note=STATIC_BASE + "Python's all()/any()/chain() are trusted.",
         technique="static analysis: ordering abstraction and propositional abstraction of formulas extracted from the ast"),
     "C11": dict(
@@ -102,7 +102,7 @@ CLAIMS = {
         text="One definition of 'line' (binary index vs text-mode reads: newline='\\n'), cursor typestate on all paths of "
              "every public entry point of the eight line-file classes (every read positioned by a seek since entry or the "
              "last yield), terminator removal strips exactly '\\n', selector dispatch by delegation to range/list "
-             "semantics with unmodified indices, index construction shape.",
+             "semantics with unmodified indices, index construction shape. Also: derived state (remembered positions, cached lines) is refreshed on every path that installs or moves the handle.",
         level_note=STATIC_BASE + "byte-exact UTF-8 decoding and I/O buffering are stdlib behaviour and not decided.",
         technique="static analysis: typestate abstract interpretation with inlining along the MRO, value-flow"),
     "C12": dict(
@@ -111,7 +111,7 @@ CLAIMS = {
              "index), tagged-union discipline (stores into _lines dominated by isinstance(str) tests), dirty flag written "
              "by every mutator and initialised False/True as stated, save writes each line of the current view once with "
              "the chosen ending, source read-only (who-may-write), and the offset/content table the classes build themselves is a "
-             "list (it must accept str entries and insertion).",
+             "list (it must accept str entries and insertion). Also: derived state refreshed on every path that edits the table; the table is owned by the object (not a memoised helper's result).",
         level_note=STATIC_BASE + "equality with a list model over edit histories follows from delegation + list semantics "
                    "and is not re-proved.",
         technique="static analysis: delegation/value-flow rules, dominators, who-may-write query"),
@@ -120,7 +120,7 @@ CLAIMS = {
         text="Writer/reader agreement rules with the stdlib as trusted base: identical csv dialect keywords on both sides "
              "from the same class attribute, field tables derived from one filter, shared-buffer typestate "
              "(writerow, getvalue, truncate(0)+seek(0) before return), json.dumps without indent, record layer applies "
-             "record_class.load to the raw line of the next class in the MRO.",
+             "record_class.load to the raw line of the next class in the MRO. Also: the parsed row comes from csv.reader on every path; per-class caches are keyed by cls and no class method stores into an attribute of cls.",
         level_note=STATIC_BASE + "load(save(r)) == r for every string is csv/json correctness under equal dialects; trusted.",
         technique="static analysis: sibling agreement of call arguments, typestate on the shared buffer"),
     "C14": dict(
@@ -128,7 +128,7 @@ CLAIMS = {
         text="Shared-state writes under the lock, write-flush-then-publish order in __setitem__ with the offset taken "
              "before the write, duplicate check dominating every effect, iteration over the identifier space rather than "
              "the count, reset agreement of flush(), counter discipline, reader guards and seek-before-read, append mode when a "
-             "registered writer re-opens its file, and no closed handle left in a cache field on any path of close().",
+             "registered writer re-opens its file, and no closed handle left in a cache field on any path of close(). Also: derived state (process-local copies of index entries) refreshed on every mutating path; no per-instance state on the class.",
         level_note=STATIC_BASE + "cross-process visibility of Manager proxies/Value and file-system append atomicity trusted.",
         technique="static analysis: lock regions, must-precede ordering, value-flow, reset agreement"),
     "C15": dict(
@@ -147,7 +147,7 @@ CLAIMS = {
              "(start > end raises KeyError; span set built with the Overlaps relation and duplicate check on; length "
              "comparison raises KeyError), accepted closed-interval lookup idiom with both miss tests raising KeyError "
              "and index-aligned arrays, __contains__ defined by lookup. Correctness of the bisect algorithm for all "
-             "interval sets is not decided.",
+             "interval sets is not decided. Also: the SpanSet constructor clause the disjointness test relies on (keep a span iff no kept span matches; argument roles).",
         level_note=STATIC_BASE + "bisect semantics trusted.",
         technique="static analysis: ordering abstraction, idiom and parallel-array rules"),
     "C17": dict(
@@ -168,7 +168,7 @@ CLAIMS = {
         text="Exact for the clause: ownership typestate on all paths of every public entry point of the eight line-file "
              "classes and MapAccessFile (every seek/read of the shared handle preceded since entry or the last yield by "
              "the re-open helper), and the helper really re-opens (pid compared with os.getpid(), close+open, every open "
-             "records the pid on the same path, every close clears it).",
+             "records the pid on the same path, every close clears it). Also: handles are opened from the constructor's path (never a duplicated descriptor) and the recorded owner identity is os.getpid().",
         level_note=STATIC_BASE + "descriptor inheritance by spawn/forkserver is outside the property's fork scope.",
         technique="static analysis: typestate abstract interpretation with inlining along the MRO"),
     "C19": dict(
@@ -190,7 +190,7 @@ CLAIMS = {
              "one handle per given path), cleanup covers the registry (each path removed tolerating FileNotFoundError, "
              "registry replaced by the right kind; __enter__ may replace the registry only by a manager list seeded with the "
              "registered paths and only for a multi_proc pool; remove deletes before it unregisters; FilePool.close closes "
-             "every handle).",
+             "every handle). Also: close() reaches the closing loop on every path; no per-instance state on the class.",
         level_note=STATIC_BASE + "os.remove/close raising midway and distinctness of tempfile names not decided.",
         technique="static analysis: all-paths typestate on __exit__, value-flow of acquisitions, registry coverage"),
 }
